@@ -56,11 +56,13 @@ pub fn junk(dna: &mut Dna, safe: bool, max: usize) -> Vec<u8> {
 
 /// plaintext sizes straddle the scanner's 1024 byte acceptance threshold
 pub fn pick_embedded_plain_size(dna: &mut Dna) -> usize {
-    match dna.weighted(&[25, 45, 20, 10]) {
+    match dna.weighted(&[25, 43, 18, 10, 4]) {
         0 => dna.range(1000, 1100),
         1 => dna.range(1100, 8 * 1024),
         2 => dna.range(8 * 1024, 40 * 1024),
-        _ => dna.range(0, 1000),
+        3 => dna.range(0, 1000),
+        // large: compressed payloads beyond 64 KiB (IDAT chunks >= 65536 bytes)
+        _ => dna.range(70 * 1024, 220 * 1024),
     }
 }
 
@@ -85,11 +87,51 @@ pub fn gen_embedded_stream(dna: &mut Dna, allow_syn: bool, size: usize) -> (Vec<
 }
 
 pub fn wrap_zlib(out: &mut Vec<u8>, hdr: [u8; 2], stream: &[u8], plain: &[u8]) -> (usize, usize) {
+    wrap_zlib_trailer(out, hdr, stream, plain, 4)
+}
+
+/// `trailer` = how many of the 4 Adler-32 bytes are written (0..=4)
+pub fn wrap_zlib_trailer(out: &mut Vec<u8>, hdr: [u8; 2], stream: &[u8], plain: &[u8], trailer: usize) -> (usize, usize) {
     out.extend_from_slice(&hdr);
     let start = out.len();
     out.extend_from_slice(stream);
-    out.extend_from_slice(&adler32(plain).to_be_bytes());
+    out.extend_from_slice(&adler32(plain).to_be_bytes()[..trailer.min(4)]);
     (start, stream.len())
+}
+
+/// "seam" case: a zlib-wrapped stored stream whose last k plaintext bytes double as the high
+/// bytes of the length field of an IDAT chunk that follows immediately (the PNG chunk's
+/// length field overlaps the tail of the previous stream).
+pub fn seam_idat(out: &mut Vec<u8>, dna: &mut Dna) -> (Embedded, Embedded) {
+    let k = dna.range(1, 3);
+    let n2 = dna.range(1100, 3000);
+    let plain2 = gen_plain_sized(dna, n2);
+    let stream2 = crate::gen_comp::zlib_deflate_raw(&plain2, &crate::gen_comp::ZCfg::simple(dna.range(1, 9) as i32)).unwrap();
+    let mut payload = vec![0x78, 0x9c];
+    payload.extend_from_slice(&stream2);
+    payload.extend_from_slice(&adler32(&plain2).to_be_bytes());
+    let len_be = (payload.len() as u32).to_be_bytes();
+    let n1 = dna.range(1100, 2500);
+    let mut plain1 = gen_plain_sized(dna, n1);
+    let l1 = plain1.len();
+    plain1[l1 - k..].copy_from_slice(&len_be[..k]);
+    // level 0 = one final stored block that ends with the plaintext's last bytes
+    let stream1 = crate::gen_comp::zlib_deflate_raw(&plain1, &crate::gen_comp::ZCfg::simple(0)).unwrap();
+    let w1 = out.len();
+    let (s1, l1s) = wrap_zlib_trailer(out, [0x78, 0x01], &stream1, &plain1, 0);
+    let w2 = out.len() - k;
+    out.extend_from_slice(&len_be[k..]);
+    out.extend_from_slice(b"IDAT");
+    out.extend_from_slice(&payload);
+    let mut h = crc32fast::Hasher::new();
+    h.update(b"IDAT");
+    h.update(&payload);
+    out.extend_from_slice(&h.finalize().to_be_bytes());
+    let total = 12 + payload.len();
+    (
+        Embedded { wrapper: "zlib", variant: "7801 stored, no adler".into(), wrapper_start: w1, stream_start: s1, stream_len: l1s, plain: plain1, stream: stream1 },
+        Embedded { wrapper: "png", variant: format!("length field overlaps previous stream by {}", k), wrapper_start: w2, stream_start: w2, stream_len: total, plain: plain2, stream: stream2 },
+    )
 }
 
 pub struct GzipOpts {
@@ -446,7 +488,14 @@ pub fn gen_file_opts(dna: &mut Dna, small: bool) -> FileCase {
         _ => dna.range(6, 12),
     };
     for _ in 0..nseg {
-        match dna.weighted(&[20, 25, 55]) {
+        match dna.weighted(&[20, 25, 51, 4]) {
+            3 => {
+                let (a, b) = seam_idat(&mut out, dna);
+                labels.push("seam:idat-length-overlaps-previous-stream".into());
+                desc.push_str("[seam: zlib stored + overlapping IDAT]");
+                embedded.push(a);
+                embedded.push(b);
+            }
             0 => {
                 let j = junk(dna, false, if small { 60 } else { 2000 });
                 out.extend_from_slice(&j);
@@ -473,7 +522,13 @@ pub fn gen_file_opts(dna: &mut Dna, small: bool) -> FileCase {
                 let (wrapper, variant, (s, l)) = match dna.weighted(&[25, 25, 25, 25]) {
                     0 => {
                         let h = ZLIB_HEADERS[dna.below(4)];
-                        ("zlib", format!("{:02x}{:02x}", h[0], h[1]), wrap_zlib(&mut out, h, &stream, &plain))
+                        // sometimes the Adler-32 is missing or cut short, so that the next
+                        // segment starts 0..3 bytes after the deflate data
+                        let trailer = if dna.chance(20) { dna.below(4) } else { 4 };
+                        if trailer < 4 {
+                            labels.push("zlib:short-trailer".into());
+                        }
+                        ("zlib", format!("{:02x}{:02x} trailer={}", h[0], h[1], trailer), wrap_zlib_trailer(&mut out, h, &stream, &plain, trailer))
                     }
                     1 => {
                         let o = gen_gzip_opts(dna);
